@@ -43,7 +43,8 @@ VARIABLES
                                             \*   sequence, unused_sequences, recent_sequences            (observable)
   last, released,                           \* sequence allocator: last sequence handed out; sequences published as unused (observable)
   pc, res, kind, parg,                      \* per writer: control state, returned value, inputs          (observable)
-  match, att, loc, dso, uo, dropped, dev, top, lost, backIdx,  \* per writer locals: Put's captured matchRev, attempts, computed document,
+  match, ph, att, loc, dso, uo, dropped, dev, top, lost, backIdx,  \* per writer locals: Put's captured matchRev, the pushed history
+                                            \*   (parent and its ancestors as the client knew them), attempts, computed document,
                                             \*   updateAndReturnDoc's docSequence / unusedSequences; sequences lost by ErrDropsUnused;
                                             \*   names of the deviations that fired in this behaviour; the commit with the highest sequence so
                                             \*   far [seq, rev] - what the change cache keeps for the document; revisions overwritten by a
@@ -57,7 +58,7 @@ conf   == <<allow, initLen, initTomb, ws>>
 bucket == <<cas, tree, cur, seq, unused, recent>>
 alloc  == <<last, released>>
 obsw   == <<pc, res, kind, parg>>
-hidden == <<match, att, loc, dso, uo, dropped, dev, top, lost, backIdx>>
+hidden == <<match, ph, att, loc, dso, uo, dropped, dev, top, lost, backIdx>>
 fd     == <<feed, quiesced>>
 ghost  == <<docSeqs, onDoc, initSeq>>
 impl   == <<bucket, alloc, obsw, hidden, fd>>
@@ -73,8 +74,8 @@ IsLeaf(t, r)   == r \in DOMAIN t /\ Children(t, r) = {}
 Leaves(t)      == {r \in DOMAIN t : Children(t, r) = {}}
 RECURSIVE Gen(_, _)
 Gen(t, r) == IF r = 0 \/ r \notin DOMAIN t THEN 0 ELSE 1 + Gen(t, t[r].p)
-RECURSIVE Anc(_, _)
-Anc(t, r) == IF r = 0 \/ r \notin DOMAIN t THEN {} ELSE {r} \cup Anc(t, t[r].p)
+RECURSIVE AncSeq(_, _)
+AncSeq(t, r) == IF r = 0 \/ r \notin DOMAIN t THEN <<>> ELSE <<r>> \o AncSeq(t, t[r].p)      \* r, its parent, ... up to the root
 (* winningRevision: live leaves first, then the higher generation; the digest breaks remaining ties (left open here) *)
 Winners(t) ==
   IF DOMAIN t = {} THEN {0}
@@ -97,7 +98,7 @@ Init ==
   /\ last = initLen /\ released = {}
   /\ pc = [w \in Writers |-> "idle"] /\ res = [w \in Writers |-> NoRes]
   /\ kind = [w \in Writers |-> ""] /\ parg = [w \in Writers |-> 0]
-  /\ match = [w \in Writers |-> 0] /\ att = [w \in Writers |-> 0] /\ loc = [w \in Writers |-> NoLoc]
+  /\ match = [w \in Writers |-> 0] /\ ph = [w \in Writers |-> <<>>] /\ att = [w \in Writers |-> 0] /\ loc = [w \in Writers |-> NoLoc]
   /\ dso = [w \in Writers |-> 0] /\ uo = [w \in Writers |-> <<>>] /\ dropped = {} /\ dev = {} /\ top = [seq |-> initLen, rev |-> initLen] /\ lost = {} /\ backIdx = {}
   /\ feed = <<>> /\ quiesced = FALSE
   /\ docSeqs = <<>> /\ onDoc = 1..initLen /\ initSeq = [i \in 1..initLen |-> i]
@@ -112,10 +113,22 @@ Illegal(p, del, h) ==
   /\ IF del THEN ~(IsLeaf(tree, p) /\ ~tree[p].d)
      ELSE IF tree[cur].d THEN (h \cap DOMAIN tree) # {} ELSE TRUE
 
+(* PutExistingRev: the pushed history is <<new revision, parent, grandparent, ...>> as the client knew it when it
+   started.  The parent used is the first listed revision the document contains; every listed revision before it is added
+   (all but the new one as live revisions) - normally only the new one, more only if a listed ancestor was lost meanwhile. *)
+PushHist(w) == <<W(w)>> \o ph[w]
+PushIdx(w)  == LET H == PushHist(w) IN
+               IF \E i \in 1..Len(H) : H[i] \in DOMAIN tree THEN CHOOSE i \in 1..Len(H) : H[i] \in DOMAIN tree /\ \A j \in 1..(i - 1) : H[j] \notin DOMAIN tree
+               ELSE Len(H) + 1
+PushPar(w)  == LET H == PushHist(w) IN IF PushIdx(w) <= Len(H) THEN H[PushIdx(w)] ELSE 0
+RECURSIVE AddChain(_, _, _, _)
+AddChain(t, H, i, par) ==        \* add H[i], H[i-1], ..., H[1] on top of par
+  IF i < 1 THEN t ELSE AddChain(AddRev(t, H[i], par, FALSE), H, i - 1, H[i])
+
 (* result of the callback on the current bucket document: err, parent used, new value of the captured matchRev *)
 Callback(w) ==
   IF kind[w] = "push"
-  THEN [err |-> Illegal(parg[w], FALSE, {W(w)} \cup Anc(tree, parg[w])), par |-> parg[w], m |-> match[w]]
+  THEN [err |-> (PushIdx(w) = 1 \/ Illegal(PushPar(w), FALSE, Range(PushHist(w)))), par |-> PushPar(w), m |-> match[w]]
   ELSE IF match[w] = 0
        THEN IF cur = 0 THEN [err |-> FALSE, par |-> 0, m |-> 0]
             ELSE IF ~tree[cur].d THEN [err |-> TRUE, par |-> 0, m |-> cur]          \* 409 Document exists; matchRev stays assigned
@@ -134,7 +147,8 @@ ImplCompute(w) ==
        /\ uo' = [uo EXCEPT ![w] = <<>>] /\ dropped' = dropped \cup Range(uo[w])
        /\ dev' = (IF uo[w] # <<>> THEN dev \cup {<<"ErrDropsUnused", w>>} ELSE dev)
        /\ UNCHANGED <<loc, dso, last>>
-  ELSE LET nt    == AddRev(tree, W(w), cb.par, Deleted(w))
+  ELSE LET nt    == IF kind[w] = "push" THEN AddChain(tree, PushHist(w), PushIdx(w) - 1, cb.par)
+                    ELSE AddRev(tree, W(w), cb.par, Deleted(w))
            reuse == dso[w] > seq
            nuo   == IF reuse \/ dso[w] = 0 THEN uo[w] ELSE Append(uo[w], dso[w])
            s     == IF reuse THEN dso[w] ELSE last + 1
@@ -150,20 +164,21 @@ ImplCompute(w) ==
 
 ImplBegin(w, k, p) ==
   /\ kind' = [kind EXCEPT ![w] = k] /\ parg' = [parg EXCEPT ![w] = p] /\ match' = [match EXCEPT ![w] = p]
+  /\ ph' = [ph EXCEPT ![w] = AncSeq(tree, p)]
   /\ pc' = [pc EXCEPT ![w] = "begun"]
   /\ UNCHANGED <<bucket, alloc, res, att, loc, dso, uo, dropped, dev, top, lost, backIdx, fd>>
 
 ImplReadAndCompute(w) ==
   /\ att' = [att EXCEPT ![w] = 1]
   /\ ImplCompute(w)
-  /\ UNCHANGED <<bucket, released, res, kind, parg, top, lost, backIdx, fd>>
+  /\ UNCHANGED <<bucket, released, res, kind, parg, ph, top, lost, backIdx, fd>>
 
 Commit(w) ==
   /\ cas' = cas + 1 /\ tree' = loc[w].tree /\ cur' = loc[w].cur /\ seq' = loc[w].seq
   /\ unused' = loc[w].unused /\ recent' = loc[w].recent
   /\ pc' = [pc EXCEPT ![w] = "committed"]
   /\ top' = (IF loc[w].seq > top.seq THEN [seq |-> loc[w].seq, rev |-> loc[w].cur] ELSE top)
-  /\ UNCHANGED <<alloc, res, kind, parg, match, att, loc, dso, uo, dropped, fd>>
+  /\ UNCHANGED <<alloc, res, kind, parg, match, ph, att, loc, dso, uo, dropped, fd>>
 ImplCasWrite(w) ==
   LET nowTomb == cas > 0 /\ tree[cur].d IN
   IF cas = loc[w].casRead THEN Commit(w) /\ UNCHANGED <<dev, lost, backIdx>>
@@ -173,10 +188,10 @@ ImplCasWrite(w) ==
   ELSE IF loc[w].readLive /\ loc[w].tomb /\ nowTomb
        THEN /\ pc' = [pc EXCEPT ![w] = "errored"] /\ dev' = dev \cup {<<"DeleteRaceError", w>>}   \* Rosmar: MissingError, not retried;
             /\ released' = released \cup ({dso[w]} \ {0}) \cup Range(uo[w])              \*   the call returns through the release-on-error block
-            /\ UNCHANGED <<bucket, last, res, kind, parg, match, att, loc, dso, uo, dropped, top, lost, backIdx, fd>>
+            /\ UNCHANGED <<bucket, last, res, kind, parg, match, ph, att, loc, dso, uo, dropped, top, lost, backIdx, fd>>
   ELSE /\ att' = [att EXCEPT ![w] = att[w] + 1]
        /\ ImplCompute(w)
-       /\ UNCHANGED <<bucket, released, res, kind, parg, top, lost, backIdx, fd>>
+       /\ UNCHANGED <<bucket, released, res, kind, parg, ph, top, lost, backIdx, fd>>
 
 ImplAck(w) ==
   /\ IF pc[w] = "committed"
